@@ -395,7 +395,30 @@ fn mutate(ch: &mut Ch, toks: &[Tok]) -> Vec<Tok> {
                 k => Tok::Simple(k),
             }
         };
-        match ch.pick(4) {
+        match ch.pick(5) {
+            4 => {
+                // A matching pair of round brackets dropped (the printer writes only the brackets
+                // the grammar needs, so what is left is a near miss two tokens away: a form in a
+                // position that does not admit it, or a different sentence).
+                let mut stack = vec![];
+                let mut pairs = vec![];
+                for (i, x) in t.iter().enumerate() {
+                    match x.kind() {
+                        K::LeftParen => stack.push(i),
+                        K::RightParen => {
+                            if let Some(o) = stack.pop() {
+                                pairs.push((o, i));
+                            }
+                        }
+                        _ => {}
+                    }
+                }
+                if !pairs.is_empty() {
+                    let (o, c) = pairs[ch.pick(pairs.len())];
+                    t.remove(c);
+                    t.remove(o);
+                }
+            }
             0 if !t.is_empty() => {
                 let p = ch.pick(t.len());
                 t.remove(p);
